@@ -1,4 +1,5 @@
 import Apko.Model.Accounts
+import Apko.Model.AccountsSched
 import Apko.Driver.FS
 /-! line-protocol handlers for corr:accounts (C13)
 
@@ -158,18 +159,56 @@ def handlePaths (pre goRes post : String) (mtoks : List String) : String :=
       reply impl reasons (classOf (reasons.map (reasonClass cfgT fs1 m)))
   | _, _, _ => "bad-request\tfail:bad-request\tunlisted"
 
+/-- the result of a schedule of the two goroutines (`Model/AccountsSched.lean`), as `mutateAccounts` reports it -/
+def schedResult (cfg : AccCfg) (fs0 : FS) (sched : List Bool) : Option (FS × Option AErr × Text) :=
+  let s := runSched cfgT cfg sched ⟨fs0, .start, .start⟩
+  if s.g.isDone ∧ s.u.isDone then some s.result else none
+
+/-- three schedules that let both goroutines finish: group goroutine first, passwd goroutine first, strictly
+alternating (`n` bounds the calls of the passwd goroutine: 4 per entry and 4 for the file) -/
+def schedules (n : Nat) : List (List Bool) :=
+  [List.replicate 4 true ++ List.replicate n false,
+   List.replicate n false ++ List.replicate 4 true,
+   (List.range n).flatMap (fun _ => [true, false])]
+
+def accResS (r : FS × Option AErr × Text) : String :=
+  (match r.2.1 with | none => "ok:" ++ str (hex r.2.2) | some _ => "err") ++ "#" ++ str (dump r.1)
+
+/-- the entries `etc/group` and `etc/passwd` of the tree are one node (hard link), or one is a symbolic link
+that leads to the other's node -/
+def aliased (fs : FS) : Bool :=
+  match follow cfgT fs groupPath, follow cfgT fs passwdPath with
+  | some a, some b => a == b
+  | _, _ => false
+
 def handleAccounts (pre goRes post : String) (toks : List String) : String :=
   match parseDump pre, parseDump post with
   | some fs0, some fs1 =>
     let cfg := parseAcc toks
-    let (ifs, ie, runAs) := mutateAccounts cfgT fs0 cfg
-    let res := match ie with | none => "ok:" ++ str (hex runAs) | some _ => "err"
-    let impl := res ++ "#" ++ str (dump ifs)
+    let big := accResS (mutateAccounts cfgT fs0 cfg)
+    -- every interleaving of the two goroutines ends like the sequential model (C13.interleavings_agree): three
+    -- schedules of the small-step machines are run on the case and must agree with it
+    let nU := 4 * (cfg.users.length + ((str (readText cfgT fs0 passwdPath)).splitOn "\n").length) + 8
+    let outs := (schedules nU).map fun sc => (schedResult cfg fs0 sc).map accResS
+    let impl := if outs.all (· == some big) then big else "sched-diverge:" ++ big
     match goRes.splitOn ":" with
     | ["ok", r] =>
       let reasons := specAccounts cfgT fs0 fs1 cfg (ux r)
-      reply impl reasons (if reasons = [] then "-" else "unlisted")
+      reply impl reasons (if reasons = [] then "-" else if aliased fs0 then "F13f" else "unlisted")
     | _ => reply impl [] "-"
+  | _, _ => "bad-request\tfail:bad-request\tunlisted"
+
+/-- `etc/group` and `etc/passwd` are one node: the goroutines race; no correspondence is demanded (oracle only):
+a call that reports success must have realized the accounts -/
+def handleAlias (pre goRes post : String) (toks : List String) : String :=
+  match parseDump pre, parseDump post with
+  | some fs0, some fs1 =>
+    let cfg := parseAcc toks
+    match goRes.splitOn ":" with
+    | ["ok", r] =>
+      let reasons := specAccounts cfgT fs0 fs1 cfg (ux r)
+      "-\t" ++ verdict reasons ++ "\t" ++ (if reasons = [] then "-" else if aliased fs0 then "F13f" else "unlisted")
+    | _ => "-\tpass\t-"
   | _, _ => "bad-request\tfail:bad-request\tunlisted"
 
 /-! ### end to end: the emitted layer and image configuration -/
@@ -320,6 +359,7 @@ def handle (args : List String) : Option String :=
   | ["acc.mut", pre, goRes, post, m] => some (handlePaths pre goRes post [m])
   | "acc.paths" :: pre :: goRes :: post :: ms => some (handlePaths pre goRes post ms)
   | "acc.accounts" :: pre :: goRes :: post :: toks => some (handleAccounts pre goRes post toks)
+  | "acc.alias" :: pre :: goRes :: post :: toks => some (handleAlias pre goRes post toks)
   | "acc.e2e" :: sel :: toks => some (handleE2E sel toks)
   | _ => none
 
